@@ -59,7 +59,8 @@ type c12Form struct {
 // "dry-print": -dry -print; what is observed instead of the written bytes is the printed code (a dry run, too,
 // behaves as if the output path were empty).
 // "out-noext": an -out name without the .go extension (the tool writes exactly where it is told).
-var c12Forms = []c12Form{{"pkgdir-rel"}, {"modroot-rel"}, {"out-flag"}, {"abs"}, {"via-symlink"}, {"out-otherdir"}, {"dry-print"}, {"out-noext"}}
+// "with-log": -log (a log file next to the output): whatever the run logs, the old output is not an input.
+var c12Forms = []c12Form{{"pkgdir-rel"}, {"modroot-rel"}, {"out-flag"}, {"abs"}, {"via-symlink"}, {"out-otherdir"}, {"dry-print"}, {"out-noext"}, {"with-log"}}
 
 const c12OutFlagName = "aa_conv.gen.go" // sorts before every generated sibling name
 
@@ -80,6 +81,8 @@ func (f c12Form) spec(root string, sc *c12Scen) (args []string, dir, out string)
 		return []string{"-out", "ab_conv.gen", filepath.Base(sc.SetupRel)}, filepath.Join(root, sc.PkgRel), filepath.Join(root, sc.PkgRel, "ab_conv.gen")
 	case "dry-print":
 		return []string{"-dry", "-print", filepath.Base(sc.SetupRel)}, filepath.Join(root, sc.PkgRel), defOut
+	case "with-log":
+		return []string{"-log", filepath.Base(sc.SetupRel)}, filepath.Join(root, sc.PkgRel), defOut
 	case "out-otherdir":
 		return []string{"-out", "../c12out/conv.gen.go", filepath.Base(sc.SetupRel)}, filepath.Join(root, sc.PkgRel), filepath.Join(root, "c12out", "conv.gen.go")
 	}
@@ -623,6 +626,11 @@ func c12PreStates(sc *c12Scen, clean []byte, stale map[string][]byte, r *rand.Ra
 		add("crlf", "output(S) with CRLF line endings", "crlf-all", crlf, true)
 		add("crlf", "output(S) with one CRLF line", "crlf-one", bytes.Replace(clean, []byte("\n"), []byte("\r\n"), 1), true)
 		add("crlf", "output(S) with CRLF line endings, cut short", "crlf-trunc", crlf[:len(crlf)*2/3], false)
+		// the old output with something IN FRONT of its generated header (a licence header added by a
+		// tool, a hand-added build line, blank lines): nothing of it may survive into the new output
+		for i, head := range []string{"// Copyright 2026 ACME Corp. All rights reserved.\n\n", "//go:build !never\n\n", "// junk\n// more junk\n", "\n\n", "/* block */\n"} {
+			add("prefixed", fmt.Sprintf("%q + output(S)", head), fmt.Sprintf("prefixed#%d", i), append([]byte(head), clean...), true)
+		}
 		// the whole old output under a different package name (package was renamed since)
 		add("otherpkg", "output(S) with package clause renamed", "renamed-output",
 			bytes.Replace(clean, []byte("\npackage "+pkg+"\n"), []byte("\npackage "+pkg+"old\n"), 1), true)
